@@ -22,7 +22,15 @@ EXPLANATION = (
     "equality of the round trip is not decided.")
 
 
-def step(fn, order, nan_in=False):
+class _Continue(Exception):
+    pass
+
+
+class _Break(Exception):
+    pass
+
+
+def step(fn, order, nan_in=False, zero=frozenset()):
     """symbolic evaluation of one iteration of the time loop for a given AR order; returns (stored value, new buffer)"""
     loop = time_loop(fn)
     iv = loop_var(loop)
@@ -33,7 +41,8 @@ def step(fn, order, nan_in=False):
         env[f"{buf_name}[{k}]"] = ('sym', f"p{k}")
     inp = "innov" if fn["name"].endswith("sim") else "inputs"
     from ..ceval import _show as _idx
-    arrays = {inp: lambda idx: ('sym', 'IN'), "params": lambda idx: ('sym', f"phi{_idx(idx)}")}
+    # coefficients listed in `zero` are exactly 0 (a tested special value); every other one is a generic non-zero symbol
+    arrays = {inp: lambda idx: ('sym', 'IN'), "params": lambda idx: num(0) if _idx(idx) in {str(z) for z in zero} else ('sym', f"phi{_idx(idx)}")}
 
     def oracle(c):
         if c[0] == 'call' and c[1] == 'isnan':
@@ -59,6 +68,9 @@ def step(fn, order, nan_in=False):
             if d.is_const():
                 v = d.cval()
                 return {"<": v < 0, "<=": v <= 0, ">": v > 0, ">=": v >= 0, "==": v == 0, "!=": v != 0}[c[1]]
+            sy = d.symbols()
+            if c[1] in ('==', '!=') and len(sy) == 1 and list(sy)[0].startswith("phi") and (d == Ratio.sym(list(sy)[0]) or (-d) == Ratio.sym(list(sy)[0])):
+                return c[1] == '!='          # a coefficient not listed in `zero` is generic: different from 0
         return None
     ce = CEval(oracle, arrays)
 
@@ -80,13 +92,22 @@ def step(fn, order, nan_in=False):
                         raise Undecided(f"lag loop condition {show(c)}")
                     if not d:
                         break
-                    run_block(body_stmts(body), env)
+                    try:
+                        run_block(body_stmts(body), env)
+                    except _Continue:
+                        pass
+                    except _Break:
+                        break
                     ce._walk([inc], env, [])
                     # normalise the loop variable to a number
                     env[v] = num(Canon().ratio(env[v]).cval())
                     guard += 1
                     if guard > 20:
                         raise Undecided("lag loop does not terminate")
+            elif k == "ContinueStmt":
+                raise _Continue()
+            elif k == "BreakStmt":
+                raise _Break()
             elif k == "IfStmt":
                 c = ce.ex(s["inner"][0], env)
                 d = oracle(c)
@@ -203,6 +224,34 @@ def run(rep):
         rep.check(comp == E and okbs and okbr and (want_s - Ratio.sym("m")) == (y - Ratio.sym("m")), "R17.b", file, "c_armodel_*",
                   f"order {order}: residual(sim(e)) = e and both kernels leave the same lag buffer", f"residual of the simulated value: {comp}", line=fs["line"])
     rep.floor("AR orders evaluated", nid, 10)
+    # exactly-zero coefficients (a value kernels may test for): same identities with phi_k = 0, orders 1..3, every subset
+    import itertools
+    nz = 0
+    for order in (1, 2, 3):
+        for r_ in range(1, order + 1):
+            for zs in itertools.combinations(range(order), r_):
+                try:
+                    vs, bs = step(fs, order, zero=frozenset(zs))
+                    vr, br = step(fr, order, zero=frozenset(zs))
+                except Undecided as ex:
+                    rep.undecided("R17.a", file, "c_armodel_*", f"order {order}, phi{list(zs)} = 0: step evaluation", str(ex), line=fs["line"])
+                    continue
+                nz += 1
+                ar = Ratio.const(0)
+                for k in range(order):
+                    if k not in zs:
+                        ar = ar + Ratio.sym(f"phi{k}") * Ratio.sym(f"p{k}")
+                E = Ratio.sym("IN")
+                want_s, want_r = Ratio.sym("m") + E + ar, (E - Ratio.sym("m")) - ar
+                want_bs = [want_s - Ratio.sym("m")] + [Ratio.sym(f"p{k}") for k in range(order - 1)]
+                want_br = [E - Ratio.sym("m")] + [Ratio.sym(f"p{k}") for k in range(order - 1)]
+                oks = cn.ratio(vs) == want_s and all(b is not None and cn.ratio(b) == w for b, w in zip(bs, want_bs))
+                okr = cn.ratio(vr) == want_r and all(b is not None and cn.ratio(b) == w for b, w in zip(br, want_br))
+                rep.check(oks, "R17.a", file, "c_armodel_sim", f"order {order} with phi{list(zs)} exactly 0: same recursion and buffer shift",
+                          f"stores {cn.ratio(vs)}; buffer {[str(cn.ratio(b)) if b is not None else None for b in bs]}", line=fs["line"])
+                rep.check(okr, "R17.a", file, "c_armodel_residual", f"order {order} with phi{list(zs)} exactly 0: same recursion and buffer shift",
+                          f"stores {cn.ratio(vr)}; buffer {[str(cn.ratio(b)) if b is not None else None for b in br]}", line=fr["line"])
+    rep.floor("zero-coefficient scenarios evaluated", nz, 11)
     # R17.d NaN handling
     try:
         vs_nan, _ = step(fs, 2, nan_in=True)
